@@ -53,7 +53,7 @@ def sweep(tier):
     for pfx in prefixes:
         for start in range(0, 0x110000, CHUNK):
             out.append({"kind": "sweep", "start": start, "prefix": pfx})
-    return out + boundary_pairs()
+    return out + boundary_pairs() + nested_same_class_cases()
 
 
 SCOPES = ["model_props", "op_params", "op_params_multi", "schema_names", "enum_values", "tag_ops", "package", "allof_props",
@@ -243,7 +243,38 @@ def _doc(case):
         a = {parent: {"type": "object", "description": "MARKzqPARENTqz", "properties": {child: inline}}}
         b = {joined: {"type": "object", "description": "MARKzqJOINEDqz", "properties": {"p": {"type": "string"}}}}
         schemas.update({**b, **a} if case.get("joined_first") else {**a, **b})
+    elif scope == "nested_same_class":
+        # an inline object whose derived class name equals that of the *inline* object holding it: the property name adds nothing
+        # ('-', '_', '$' ...) or, with title-based naming, both carry one title
+        c = ns[0]
+        child = {"type": "string", "enum": ["mkin1", "mkin2"]} if case.get("inline_kind") == "enum" else \
+            {"type": "object", "description": "MARKzqCHILDqz", "properties": {"deep": {"type": "integer"}}}
+        mid = {"type": "object", "description": "MARKzqMIDqz", "properties": {c: child, "keep": {"type": "string"}}}
+        if case.get("by_title"):
+            mid["title"] = "Shared Title"
+            child["title"] = "Shared Title"
+        shape = case.get("shape", "component")
+        if shape == "component":
+            schemas["Outer"] = {"type": "object", "properties": {"mid": mid}}
+        elif shape == "body":
+            paths["/things"] = {"post": {"operationId": "sendThing", "requestBody": {"content": {"application/json": {"schema": mid}}},
+                                         "responses": {"200": {"description": "ok"}}}}
+        else:
+            paths["/things"] = {"get": {"operationId": "readThing", "responses": {"200": {"description": "ok", "content": {"application/json": {"schema": mid}}}}}}
     return {"openapi": "3.0.3", "info": {"title": title, "version": "1"}, "paths": paths, "components": {"schemas": schemas}}
+
+
+def nested_same_class_cases():
+    out = []
+    for shape in ("component", "body", "response"):
+        for kind in ("object", "enum"):
+            for c in ("-", "_", "$", "--", ".", " ", "__", "-_-"):
+                out.append({"kind": "scope", "scope": "nested_same_class", "names": [c], "shape": shape, "inline_kind": kind, "literal": False,
+                            "prefix": "field_", "meta": "none"})
+            for c in ("kid", "Shared Title"):
+                out.append({"kind": "scope", "scope": "nested_same_class", "names": [c], "shape": shape, "inline_kind": kind, "literal": False,
+                            "prefix": "field_", "meta": "none", "by_title": True, "cfg": {"use_path_prefixes_for_title_model_names": False}})
+    return out
 
 
 def _flags(ns, prefix="field_"):
@@ -287,7 +318,7 @@ def _run_scope(case, ctx):
     ns = case["names"]
     scope = case["scope"]
     doc = _doc(case)
-    res = sut.generate(doc, cfg={"literal_enums": bool(case.get("literal")), "field_prefix": case.get("prefix", "field_")},
+    res = sut.generate(doc, cfg={"literal_enums": bool(case.get("literal")), "field_prefix": case.get("prefix", "field_"), **(case.get("cfg") or {})},
                        meta=case.get("meta", "none"), pkg_name=None)
     ctx.evals()
     flags = _flags(ns, case.get("prefix", "field_"))
@@ -398,6 +429,14 @@ def _run_scope(case, ctx):
                     if mark not in src and nm not in diag:
                         ctx.violation("scope.count_or_diagnostic", {**site, "lost": what, "inline": case.get("inline_kind")},
                                       f"component {nm!r} neither generated nor named (names {ns!r})")
+            elif scope == "nested_same_class":
+                src = "\n".join(open(f, encoding="utf-8").read() for f in pyast.py_files(os.path.join(res.package_dir, "models")))
+                want = ["MARKzqMIDqz"] + (["MARKzqCHILDqz"] if case.get("inline_kind") != "enum" else ["mkin1"])
+                lost = [m for m in want if m not in src]
+                if lost and not diag.strip():
+                    ctx.violation("scope.count_or_diagnostic", {"scope": scope, "shape": case.get("shape"), "inline": case.get("inline_kind"),
+                                                                "by_title": bool(case.get("by_title"))},
+                                  f"two schemas deriving one class name: {lost} not generated, no diagnostic (property name {ns[0]!r})")
             elif scope == "tag_ops":
                 tagdir = os.path.join(res.package_dir, "api", "thetag")
                 src = {f: open(f, encoding="utf-8").read() for f in pyast.py_files(tagdir)} if os.path.isdir(tagdir) else {}
